@@ -105,14 +105,16 @@ def walk_block(stmts, conds, loops, defs, is_effect, out, in_try=False):
         for h in _header_exprs(st):
             _walk_expr(h, conds, loops, defs, is_effect, out, st, in_try)
         if isinstance(st, ast.If):
-            walk_block(st.body, conds + [(st.test, True)], loops, defs, is_effect, out, in_try)
-            walk_block(st.orelse, conds + [(st.test, False)], loops, defs, is_effect, out, in_try)
+            after_body = walk_block(st.body, conds + [(st.test, True)], loops, defs, is_effect, out, in_try)
+            after_else = walk_block(st.orelse, conds + [(st.test, False)], loops, defs, is_effect, out, in_try)
             if terminates(st.body) and not terminates(st.orelse):
-                conds.append((st.test, False))
+                # execution continues only through the else path: keep everything known at its end
+                # (this carries the negations of an `elif ...: raise` chain)
+                conds = after_else
                 if _only_raises(st.body):
                     _VALIDATION.add(id(st.test))
             elif st.orelse and terminates(st.orelse) and not terminates(st.body):
-                conds.append((st.test, True))
+                conds = after_body
                 if _only_raises(st.orelse):
                     _VALIDATION.add(id(st.test))
             for n in _assigned_names(st):
@@ -158,6 +160,7 @@ def walk_block(stmts, conds, loops, defs, is_effect, out, in_try=False):
         elif isinstance(st, (ast.AugAssign, ast.AnnAssign, ast.Delete)):
             for n in _assigned_names(st):
                 defs.pop(n, None)
+    return conds
 
 
 _VALIDATION = set()
